@@ -338,6 +338,33 @@ def crash_excerpt(out):
     return head + ' | ' + ' <- '.join('%s(%s)' % f for f in frames)
 
 
+def third_party_leak_only(binp, path, env, timeout=600):
+    """re-run a replay with the slow (complete) unwinder and say whether every leaked block was allocated inside
+    OpenSSL's PKCS7_verify itself (its internal memory BIO, never visible to libksi). Anything else stays a failure."""
+    e = dict(env)
+    e['ASAN_OPTIONS'] = e.get('ASAN_OPTIONS', '') + ':fast_unwind_on_malloc=0:malloc_context_size=30'
+    try:
+        r = sh([binp, 'replay', path], env=e, timeout=timeout)
+    except subprocess.TimeoutExpired:
+        return False
+    out = r.stdout
+    if 'LeakSanitizer: detected memory leaks' not in out:
+        return False
+    records = re.split(r'\n(?=(?:Direct|Indirect) leak of )', out[out.index('LeakSanitizer: detected memory leaks'):])[1:]
+    if not records:
+        return False
+    for rec in records:
+        rec = rec.split('SUMMARY:')[0]
+        frames = re.findall(r'#\d+ 0x[0-9a-f]+ in (\S+)', rec)
+        if 'PKCS7_verify' not in frames:
+            return False
+        # every frame between the allocator and PKCS7_verify must be OpenSSL's own (no libksi or harness frame in between)
+        inner = rec[:rec.index(' in PKCS7_verify')]
+        if 'src/ksi/' in inner or '/harness/' in inner or '/engine/' in inner:
+            return False
+    return True
+
+
 def replay_file(binp, path, env, timeout=600):
     """returns (status, key, msg, output): status in pass|fail|known|crash|timeout"""
     try:
@@ -347,6 +374,9 @@ def replay_file(binp, path, env, timeout=600):
     out = r.stdout
     m = re.search(r'^REPLAY \S+ (pass|fail|known) key=(\S*) msg=(.*)$', out, re.M)
     if m and (r.returncode in (0, 3) or m.group(1) == 'fail'):
+        return m.group(1), m.group(2), m.group(3), out
+    if m and m.group(1) in ('pass', 'known') and 'LeakSanitizer: detected memory leaks' in out and third_party_leak_only(binp, path, env, timeout):
+        # the case passed; the only complaint is a block allocated and lost inside OpenSSL's PKCS7_verify (DESIGN 8.6): not libksi's
         return m.group(1), m.group(2), m.group(3), out
     return 'crash', crash_key(os.path.basename(binp).split('-')[0].split('.')[0], out), crash_excerpt(out), out
 
@@ -489,6 +519,8 @@ def main():
             if key in known:
                 print('KNOWN-FINDING: property=%s %s' % (pid, known[key])); return 0
             print('VIOLATION property=%s replay=%s' % (pid, a.replay)); return 1
+        if 'LeakSanitizer: detected memory leaks' in out:
+            print('note: the case passed; the leak report above is a block allocated and lost inside OpenSSL\'s PKCS7_verify (third-party, DESIGN 8.6) - not a finding')
         return 0
 
     cfg = prop[tier]
